@@ -278,7 +278,7 @@ func (m *c04mon) Sig(s *sim.Sim, st *sim.Step) string {
 var c04Profile = &sim.Profile{
 	W: map[string]int{
 		"login": 40, "otp_login": 8, "otp_add": 3, "totp_validate": 10, "sms_validate": 10, "advance": 30, "admin_lock": 3,
-		"admin_unlock": 5, "logout": 3, "dropsid": 1, "sms_remove": 5, "sms_setup": 2, "sms_confirm": 3,
+		"admin_unlock": 5, "logout": 3, "dropsid": 1, "sms_remove": 5, "sms_setup": 2, "sms_confirm": 3, "hooknext": 6,
 	},
 	Cls: map[string]map[string]int{
 		"login":         {"ok": 40, "wrong": 40, "near": 8, "empty": 4, "other": 4, "hash": 4},
@@ -322,7 +322,8 @@ func init() {
 				LockWindow:   pickD(r, 3*time.Nanosecond, 30*time.Second, 5*time.Minute, 2*time.Hour),
 				LockDuration: pickD(r, 2*time.Nanosecond, 10*time.Second, time.Minute, 12*time.Hour, 12*time.Hour, time.Duration(math.MaxInt64)),
 				OneTimeTOTP:  r.Intn(2) == 0, LogoutMethod: "DELETE", Err500: r.Intn(2) == 0,
-				CustomHasher: unit%4 == 0} // a quarter of the units: the application's own hasher with its own error values
+				AppHooksFirst: unit%3 == 0, // the application's listeners are registered before the modules' and run first
+				CustomHasher:  unit%4 == 0} // a quarter of the units: the application's own hasher with its own error values
 			switch r.Intn(4) {
 			case 0:
 				cfg.TwoFA = []string{"totp"}
